@@ -29,7 +29,18 @@ def shards(tier):
         for k1, k2 in (("s", "n"), ("a", "s"), ("s", "s"), ("n", "a")):
             for w1, w2 in itertools.product((1, 2, 4, 8), repeat=2):
                 out.append({"fields": [[k1, w1, 1], [k2, w2, 0], ["n", 1, 1]], "auto_pad": 1, "reuse": 1})
+        # a field whose type is an alias of a struct (its alignment is the struct's, not the struct's size), padding on and off
+        for w1, w2 in itertools.product((1, 2, 4, 8), repeat=2):
+            for ap in (1, 0):
+                out.append({"fields": [["n", w1, 0], ["as", w2, 0]], "auto_pad": ap})
+                out.append({"fields": [["as", w2, 1], ["n", w1, 0]], "auto_pad": ap})
     else:
+        for w1, w2 in itertools.product((1, 2, 4, 8), repeat=2):
+            for ap in (1, 0):
+                for a1, a2 in itertools.product((0, 1), repeat=2):
+                    out.append({"fields": [["n", w1, a1], ["as", w2, a2]], "auto_pad": ap})
+                    out.append({"fields": [["as", w2, a2], ["a", w1, a1]], "auto_pad": ap})
+                    out.append({"fields": [["s", w1, a1], ["as", w2, a2], ["n", 1, 0]], "auto_pad": ap})
         for fs in field_space(2, "nas"):
             for ap in (1, 0):
                 out.append({"fields": [list(f) for f in fs], "auto_pad": ap, "reuse": 1})
